@@ -71,7 +71,9 @@ fn is_dir(tree: &Tree, p: &str) -> bool {
         return true;
     }
     let prefix = format!("{p}/");
-    tree.files.keys().any(|f| f.starts_with(&prefix)) || tree.dirs.iter().any(|d| d.starts_with(&prefix))
+    tree.files.keys().any(|f| f.starts_with(&prefix))
+        || tree.dirs.iter().any(|d| d.starts_with(&prefix))
+        || tree.links.keys().any(|l| l.starts_with(&prefix))
 }
 
 fn is_file(tree: &Tree, p: &str) -> bool {
